@@ -260,6 +260,14 @@ func (p *jsonPathParser) setLastNodeText(text string) {
 func (p *jsonPathParser) updateAccessorMode(checkNode syntaxNode, mode bool) {
 	for checkNode != nil {
 		checkNode.setAccessorMode(mode)
+		if multiIdentifier, ok := checkNode.(*syntaxChildMultiIdentifier); ok {
+			for _, identifier := range multiIdentifier.identifiers {
+				identifier.setAccessorMode(mode)
+			}
+			if multiIdentifier.isAllWildcard {
+				multiIdentifier.unionQualifier.setAccessorMode(mode)
+			}
+		}
 		checkNode = checkNode.getNext()
 	}
 }
